@@ -53,7 +53,7 @@ def check_tree(g, start, value, toks_n, spans, kinds):
                 if not (isinstance(k, list) and k[0] == "R"):
                     raise TreeError("error node expected for `!`, got %r" % (k,))
                 if not (i > 0 and alt.items[i - 1].sym.k == "L" and i + 1 < len(alt.items) and alt.items[i + 1].sym.k == "R"):
-                    raise TreeError("generator invariant broken: ! without @L/@R")
+                    raise core.HarnessError("generator invariant broken: ! without @L/@R")
                 l, r = kids[i - 1][1], kids[i + 1][1]
                 dropped = []
                 for d in k[2]:
